@@ -35,7 +35,7 @@ ASSUMPTIONS = [
     "device-kind messages sent by a client may be relayed to other clients (the router routes by kind by design)",
     "liveness probes after the hostile message: a valid getProperties on the same connection is answered, a valid write is applied, a driver-side update reaches the sender and the observer",
 ]
-QUICK_RUNS = 1900
+QUICK_RUNS = 2000
 QUICK_BUDGET_S = 150
 THOROUGH_BUDGET_S = 360
 CHUNK = 25
@@ -44,7 +44,7 @@ STEP_KEYS = ("steps",)
 CATALOGUE = ["unknown_device", "unknown_property", "unknown_element", "kind_mismatch", "bad_value_parse_ok", "bad_value_parser_rejects",
              "blob_wrong_size", "blob_nonnumeric_size", "blob_missing_size", "blob_bad_base64", "no_children", "duplicate_children",
              "mixed_children", "device_kind_from_client", "enableblob_unknown_device", "unregistered_message_tag",
-             "enableblob_unregistered_sender", "getprops_odd", "empty_value", "blob_empty_wrong_size", "huge_number"]
+             "enableblob_unregistered_sender", "getprops_odd", "empty_value", "blob_empty_wrong_size", "huge_number", "raw_bytes"]
 TRANSPORTS = ["tcp", "tty", "direct"]
 ONE = {"Text": "oneText", "Number": "oneNumber", "Switch": "oneSwitch", "BLOB": "oneBLOB", "Light": "oneText"}
 NEW = {"Text": "newTextVector", "Number": "newNumberVector", "Switch": "newSwitchVector", "BLOB": "newBLOBVector", "Light": "newTextVector"}
@@ -119,6 +119,16 @@ def hostile(rng, entry, dev, v):
         if kind == "Switch":
             return {"xml": wrap(f'<oneSwitch name="{e["name"]}">Maybe</oneSwitch>'), "valid": [], "parser_ok": False}
         return {"xml": wrap(cx), "valid": [cv], "parser_ok": True, "entry": "valid_control"}
+    if entry == "raw_bytes":
+        # raw (unescaped) non-ASCII bytes: single Latin-1 bytes (invalid as UTF-8) and UTF-8 multi-byte sequences, long enough
+        # to straddle the transports' 1024-byte reads
+        unit = rng.choice(["\xe9", "\xc3\xa9", "caf\xe9 \xfc\xdf", "\xe2\x82\xac"])
+        if kind == "Text" and rng.random() < 0.5:
+            t = "r" + unit * rng.choice([1, 3]) + "z"  # short: the resulting update must stay below the 2048-character threshold
+            return {"xml": wrap(f'<oneText name="{e["name"]}">{t}</oneText>'), "valid": [(e["name"], t)], "parser_ok": True}
+        junk = unit * (rng.choice([1, 20, 1200, 1500]) // len(unit) + 1)  # ignored anyway (unknown element): may be long
+        bad = f'<{ONE[wkind]} name="NOPE{junk}"' + (' size="1" format=".b">QQ==' if kind == "BLOB" else ">" + ("On" if kind == "Switch" else "1")) + f'</{ONE[wkind]}>'
+        return {"xml": wrap(bad), "valid": [], "parser_ok": True}
     if entry == "empty_value":
         n = e["name"]
         if kind == "BLOB":
